@@ -14,6 +14,7 @@
    entries) never contained it; the model never writes the secret anywhere but the header (by inspection of
    enc_entry / node / page codecs); tools/c12.py searches the raw bytes of all four files for every 16-byte
    window of the key and enumerates all crash points inside make_read_only. *)
+From HC Require Import KeyIndepWf KeyIndepWfEx KeyIndepReplica.
 From HC Require Import KeyIndep KeyIndepHist KeyIndepEx.
 From HC Require Import SoundCoreLib SoundCore ReplicaDisk1 ReplicaMiscB.
 From HC Require Import ClearRefine Unified1 CrashClear1 ReadOnlyClear.
@@ -625,6 +626,92 @@ Theorem C12_key_independence_example_stores :
   kx_check = true.
 Proof. exact kx_same_stores_different_oplogs. Qed.
 
+Theorem C12_other_files_independent_of_secret_wellformed :
+  forall cr : crypto,
+         OplogFacts.crc_ok cr ->
+         (forall x : bytes, Datatypes.length (cr_hash cr x) = 32%nat) ->
+         (forall x : bytes, all_zero (cr_hash cr x) = false) ->
+         (forall x : bytes, bytes_ok (cr_hash cr x) = true) ->
+         (forall sk m : bytes, Datatypes.length (cr_sign cr sk m) = 64%nat) ->
+         (forall sk m : bytes, bytes_ok (cr_sign cr sk m) = true) ->
+         forall (ops : list hop) (k1 k2 : keypair) (sk1 sk2 : bytes),
+         OplogFacts.keypair_ok k1 = true ->
+         OplogFacts.keypair_ok k2 = true ->
+         kp_secret k1 = Some sk1 ->
+         kp_secret k2 = Some sk2 ->
+         wf_h ops 0 ->
+         sumN (map len (happended ops)) <= u64_max ->
+         NODE_SIZE * (2 * N.of_nat (Datatypes.length (happended ops))) <= u64_max ->
+         exists (c1 : core) (w1 : world) (c2 : core) (w2 : world),
+           start cr k1 = Some (c1, w1) /\
+           start cr k2 = Some (c2, w2) /\
+           (let r1 := hrun cr ops c1 w1 in
+            let r2 := hrun cr ops c2 w2 in
+            d_tree (w_disk (snd r1)) = d_tree (w_disk (snd r2)) /\
+            d_bitfield (w_disk (snd r1)) = d_bitfield (w_disk (snd r2)) /\
+            d_data (w_disk (snd r1)) = d_data (w_disk (snd r2)) /\
+            f_len (d_oplog (w_disk (snd r1))) = f_len (d_oplog (w_disk (snd r2))) /\
+            fst (fst r1) = fst (fst r2) /\
+            w_events (snd r1) = w_events (snd r2) /\
+            Forall2 sop_sim (w_journal (snd r1)) (w_journal (snd r2)) /\
+            filter not_oplog (w_journal (snd r1)) = filter not_oplog (w_journal (snd r2))).
+Proof. exact other_files_independent_of_secret_wf. Qed.
+
+Theorem C12_reopen_premise_holds_for_wellformed_histories :
+  forall cr : crypto,
+         OplogFacts.crc_ok cr ->
+         (forall x : bytes, Datatypes.length (cr_hash cr x) = 32%nat) ->
+         (forall x : bytes, all_zero (cr_hash cr x) = false) ->
+         (forall x : bytes, bytes_ok (cr_hash cr x) = true) ->
+         (forall sk m : bytes, Datatypes.length (cr_sign cr sk m) = 64%nat) ->
+         (forall sk m : bytes, bytes_ok (cr_sign cr sk m) = true) ->
+         forall (ops : list hop) (c1 : core) (d1 : disk) (j1 : list sop) (ev1 : list event) 
+           (c2 : core) (d2 : disk) (j2 : list sop) (ev2 : list event) (bs : list bytes) 
+           (cl : N -> bool),
+         sim c1 c2 ->
+         w_sim {| w_disk := d1; w_journal := j1; w_events := ev1 |}
+           {| w_disk := d2; w_journal := j2; w_events := ev2 |} ->
+         PInv cr c1 d1 c2 d2 bs cl ->
+         wf_h ops (N.of_nat (Datatypes.length bs)) ->
+         sumN (map len (bs ++ happended ops)) <= u64_max ->
+         NODE_SIZE * (2 * N.of_nat (Datatypes.length (bs ++ happended ops))) <= u64_max ->
+         reopen_ok cr ops c1 {| w_disk := d1; w_journal := j1; w_events := ev1 |} c2
+           {| w_disk := d2; w_journal := j2; w_events := ev2 |}.
+Proof. exact wf_reopen_ok. Qed.
+
+Theorem C12_key_independence_wellformed_example :
+  exists (c1 : core) (w1 : world) (c2 : core) (w2 : world),
+           start kw_cr kwA = Some (c1, w1) /\
+           start kw_cr kwB = Some (c2, w2) /\
+           (let r1 := hrun kw_cr kw_hist c1 w1 in
+            let r2 := hrun kw_cr kw_hist c2 w2 in
+            d_tree (w_disk (snd r1)) = d_tree (w_disk (snd r2)) /\
+            d_bitfield (w_disk (snd r1)) = d_bitfield (w_disk (snd r2)) /\
+            d_data (w_disk (snd r1)) = d_data (w_disk (snd r2)) /\ fst (fst r1) = fst (fst r2)).
+Proof. exact kw_main. Qed.
+
+Theorem C12_proof_application_ignores_secret :
+  forall (cr : crypto) (f : option bool) (pf : proof) (c : core) (w : world) (s1 s2 : option bytes),
+         olen s1 s2 ->
+         let x := core_apply_proof cr f pf (with_secret c s1) w in
+         let y := core_apply_proof cr f pf (with_secret c s2) w in
+         snd x = snd y /\
+         d_tree (w_disk (snd (fst x))) = d_tree (w_disk (snd (fst y))) /\
+         d_bitfield (w_disk (snd (fst x))) = d_bitfield (w_disk (snd (fst y))) /\
+         d_data (w_disk (snd (fst x))) = d_data (w_disk (snd (fst y))) /\
+         w_events (snd (fst x)) = w_events (snd (fst y)).
+Proof. exact apply_proof_ignores_secret. Qed.
+
+Theorem C12_proof_application_key_independent :
+  forall (cr : crypto) (f : option bool) (pf : proof) (c1 : core) (w1 : world) (c2 : core) (w2 : world),
+         sim c1 c2 ->
+         w_sim w1 w2 ->
+         kp_public (c_keypair c1) = kp_public (c_keypair c2) ->
+         sim (fst (fst (core_apply_proof cr f pf c1 w1))) (fst (fst (core_apply_proof cr f pf c2 w2))) /\
+         w_sim (snd (fst (core_apply_proof cr f pf c1 w1))) (snd (fst (core_apply_proof cr f pf c2 w2))) /\
+         snd (core_apply_proof cr f pf c1 w1) = snd (core_apply_proof cr f pf c2 w2).
+Proof. exact apply_proof_sim. Qed.
+
 Print Assumptions C12_not_writable.
 Print Assumptions C12_call_reports_writability.
 Print Assumptions C12_secret_erased_in_every_case.
@@ -664,3 +751,8 @@ Print Assumptions C12_other_files_independent_of_secret_no_reopen.
 Print Assumptions C12_key_independence_of_histories.
 Print Assumptions C12_key_independence_example.
 Print Assumptions C12_key_independence_example_stores.
+Print Assumptions C12_other_files_independent_of_secret_wellformed.
+Print Assumptions C12_reopen_premise_holds_for_wellformed_histories.
+Print Assumptions C12_key_independence_wellformed_example.
+Print Assumptions C12_proof_application_ignores_secret.
+Print Assumptions C12_proof_application_key_independent.
